@@ -3,6 +3,8 @@ from ..core import digest_of, san
 from ..net import (NetWorld, InTap, OutTap, Recorder, Script, ScriptedRandom, ScriptDone, start_injector, gen_times,
                    fields_of, GRID_RATES, SIZES)
 from ..net import valid_workloads as _valid_wl
+from onl.netdev.red_port import REDPort
+import onl.netdev.red_port as red_mod
 from onl.netdev import Port, Wire, TokenBucket, TwoRateTokenBucket, SimplePacketSwitch, FairPacketSwitch
 from onl.netdev.demux import FlowDemux, FIBDemux
 from onl.scheduler import SP, WFQ, VC, DRR, RR, WRR
@@ -22,7 +24,7 @@ STUBS = ['injectors, taps, scripted distributions, ScriptedRandom replacing onl.
 ASSUMPTIONS = ['workloads use only flows configured in every scheduler on their path', 'a packet is "discarded by the documented '
                'rule" when the element\'s own counter / the scripted loss draw / the routing rule says so; anything else '
                'missing at quiescence is a loss']
-PROBES = ['elem_Port', 'elem_Wire', 'elem_TB', 'elem_TRTB', 'elem_SP', 'elem_WFQ', 'elem_VC', 'elem_DRR', 'elem_RR',
+PROBES = ['elem_RED', 'red_drop', 'sched_many_to_one', 'elem_Port', 'elem_Wire', 'elem_TB', 'elem_TRTB', 'elem_SP', 'elem_WFQ', 'elem_VC', 'elem_DRR', 'elem_RR',
           'elem_WRR', 'elem_FlowDemux', 'elem_FIBDemux', 'elem_SimpleSwitch', 'elem_FairSwitch', 'tail_drop', 'wire_loss',
           'no_route', 'fan_in', 'fan_out', 'generator', 'sink_per_src', 'sink_interarrival']
 
@@ -42,7 +44,7 @@ def valid(case):
 
 def gen_stage(rng, flows, allow_fan=True, depth=0):
     nf = len(flows)
-    kinds = ['Port', 'Port', 'Wire', 'TB', 'TRTB', 'SP', 'WFQ', 'VC', 'DRR', 'RR', 'WRR']
+    kinds = ['Port', 'Port', 'RED', 'Wire', 'TB', 'TRTB', 'SP', 'WFQ', 'VC', 'DRR', 'DRR', 'RR', 'WRR']
     if allow_fan:
         kinds += ['FlowDemux', 'FIBDemux', 'SimpleSwitch', 'FairSwitch']
     k = rng.choice(kinds)
@@ -57,6 +59,14 @@ def gen_stage(rng, flows, allow_fan=True, depth=0):
         else:
             st['qlimit'], st['lb'] = rng.choice([2, 3, 5, 8]), False
         return st
+    if k == 'RED':
+        lb = rng.random() < 0.4
+        unit = 1000 if lb else 1
+        mn = rng.choice([1, 2]) * unit
+        mx = mn + rng.choice([1, 2]) * unit
+        return {'t': 'RED', 'rate': rng.choice([1024, 4096, rate]), 'lb': lb, 'min': mn, 'max': mx,
+                'qlimit': mx + rng.choice([0, 1, 2]) * unit, 'maxp': rng.choice([0.1, 0.5, 1.0]), 'wf': rng.choice([0, 1, 2]),
+                'draws': [rng.random() for _ in range(8)]}
     if k == 'Wire':
         return {'t': 'Wire', 'delays': [rng.choice([0, 0.125, 0.25, 1, 2]) for _ in range(rng.randint(1, 5))],
                 'loss': rng.choice([None, None, 0.3, 1]), 'draws': [rng.random() for _ in range(8)]}
@@ -75,7 +85,14 @@ def gen_stage(rng, flows, allow_fan=True, depth=0):
             table = [[f, 1] for f in flows]
         else:
             table = [[f, rng.choice([1, 2, 3])] for f in flows]
-        return {'t': k, 'rate': rate, 'table': table}
+        st = {'t': k, 'rate': rate, 'table': table}
+        if k in ('WFQ', 'VC', 'DRR') and nf >= 2 and rng.random() < 0.4:
+            # several flows per class: the class table is keyed by class id
+            ncls = rng.randint(1, nf - 1)
+            fmap = [rng.randrange(ncls) for _ in flows]
+            st['fmap'] = fmap
+            st['table'] = [[c, rng.choice([0.25, 0.5]) if k == 'VC' else rng.choice([1, 2, 3])] for c in sorted(set(fmap))]
+        return st
     if k in ('FlowDemux', 'FIBDemux'):
         nb = rng.randint(1, max(1, nf))
         st = {'t': k, 'branches': [gen_chain(rng, flows, rng.randint(0, 2), False) for _ in range(nb)],
@@ -179,6 +196,10 @@ class Builder:
         if t == 'Port':
             obj = Port(env, st['rate'], st.get('qlimit'), st.get('lb', False), name)
             obj.out = OutTap(w, name + '>', obj, nxt)
+        elif t == 'RED':
+            obj = REDPort(env, st['rate'], st['max'], st['min'], st['maxp'], name, st['qlimit'],
+                          weight_factor=st.get('wf', 1), limit_bytes=st.get('lb', False))
+            obj.out = OutTap(w, name + '>', obj, nxt)
         elif t == 'Wire':
             obj = Wire(env, Script(w, name + ':delay', st.get('delays', [1]), 1), st.get('loss'))
             w.pnames[obj.action] = name
@@ -195,6 +216,9 @@ class Builder:
                 obj = RR(env, st['rate'], [f for f, _ in st['table']])
             elif t == 'WRR':
                 obj = WRR(env, st['rate'], d)
+            elif st.get('fmap') is not None:
+                fm = st['fmap']
+                obj = SCHEDS[t](env, st['rate'], d, flow2class=lambda fid, fm=fm: fm[fid] if 0 <= fid < len(fm) else fid)
             else:
                 obj = SCHEDS[t](env, st['rate'], d)
             obj.out = OutTap(w, name + '>', obj, nxt)
@@ -219,6 +243,7 @@ def run(case):
     w = NetWorld()
     env = w.env
     saved = wire_mod.random
+    saved_red = red_mod.random
     gens = []
     try:
         draws = []
@@ -234,6 +259,11 @@ def run(case):
             return a + (b - a) * v
         sr.uniform = uniform
         wire_mod.random = sr
+        rdraws = []
+        for st in _all_stages(case.get('stages', [])):
+            if st.get('t') == 'RED':
+                rdraws += st.get('draws', [])
+        red_mod.random = ScriptedRandom(w, 'red', rdraws or [0.5])
         b = Builder(w, case)
         head = b.chain(case.get('stages', []))
         for s in case.get('sources', []):
@@ -248,6 +278,7 @@ def run(case):
         w.run(max_steps=60000)
     finally:
         wire_mod.random = saved
+        red_mod.random = saved_red
     viol, stats, nontrivial = check(w, case, b, gens)
     res = {'viol': viol, 'digest': digest_of(w.log), 'nontrivial': nontrivial, 'stats': stats,
            'simtime': float(env.now), 'steps': w.steps}
@@ -291,6 +322,10 @@ def check(w, case, b, gens):
     for node in b.nodes:
         nm, t = node.name, node.kind
         stats['elem_' + t] = 1
+        if node.spec.get('fmap') is not None:
+            stats['sched_many_to_one'] = 1
+        if t == 'RED' and node.obj.packets_dropped:
+            stats['red_drop'] = 1
         I = ins.get(nm, [])
         O = outs.get(nm, [])
         entered = {}
@@ -312,7 +347,7 @@ def check(w, case, b, gens):
         # documented discards
         allowed = 0
         why = ''
-        if t == 'Port':
+        if t in ('Port', 'RED'):
             allowed = node.obj.packets_dropped
             why = 'packets_dropped=%d' % allowed
             if allowed:
@@ -427,7 +462,7 @@ def check(w, case, b, gens):
 def _held(node):
     o, t = node.obj, node.kind
     try:
-        if t in ('Port', 'Wire', 'TB', 'TRTB'):
+        if t in ('Port', 'RED', 'Wire', 'TB', 'TRTB'):
             return len(o.store.items)
         if t in SCHEDS:
             return o.total_packets
